@@ -27,6 +27,7 @@ def monitor(case, il, sl):
     sent = {}          # label -> [bytes] accepted by the queue, in order
     written = b""
     last_state = None
+    prev_stream = None
     for k, (o, g) in enumerate(al):
         t = o.split()
         if t[0] == "send" and t[2] in ("send", "close0") and g and g[0] == "send sent":
@@ -37,6 +38,14 @@ def monitor(case, il, sl):
             elif l.startswith("state "):
                 h = l.split("out=")[1]
                 last_state = (k, written + (bytes.fromhex(h) if h != "-" else b""))
+                # bytes handed to the transport ++ bytes buffered only ever grows at the end:
+                # nothing that was accepted into the output buffer disappears or changes
+                if prev_stream is not None and not last_state[1].startswith(prev_stream[1]):
+                    a, b2 = prev_stream[1], last_state[1]
+                    i = next((j for j in range(min(len(a), len(b2))) if a[j] != b2[j]), min(len(a), len(b2)))
+                    return ("between op %d and op %d the outbound stream (written ++ buffered) stopped being an extension of itself at byte %d: %d buffered bytes were dropped or replaced" % (
+                        prev_stream[0], k, i, len(a) - i), "c01-lost")
+                prev_stream = last_state
         # conservation at every write: what the transport took is a prefix of what was buffered —
         # checked through the running total below
     if last_state is None:
@@ -141,6 +150,62 @@ def gen_random(tier, seed):
     return cases
 
 
+def gen_close_backlog(tier, seed):
+    """A backlog in the output buffer (transport stalled at a random byte offset, possibly inside a
+    frame) while a close of some kind is processed: server Connection.Close, server Channel.Close,
+    client Connection.Close, a client exception - then the transport drains."""
+    rng = Rng(seed * 67 + 5)
+    n = 150 if tier == "quick" else 3000
+    cases = []
+    for i in range(n):
+        g = Gen(rng, chmax=4, bound=8, via_stream=rng.choice([0.0, 0.0, 1.0]))
+        chans = rng.sample([1, 2, 3, 4], rng.randint(1, 3))
+        for c in chans:
+            h = g.open_channel(c); g.bind_opened(h, c)
+        g.op("wscript w:1000000"); g.op("write")
+        labels = sorted(g.handles)
+        counter = 0
+        total = 0
+        for _ in range(rng.randint(1, 6)):
+            h = rng.choice(labels)
+            counter += 1
+            f = uniq_frame(g.handles[h], counter, rng)
+            total += len(f)
+            g.op("send %s send %s" % (h, hx(f)))
+        for h in labels:
+            g.op("ev %d" % g.handles[h])
+        g.op("dump")
+        # the transport takes k bytes (any offset: frame boundary or inside a frame), then stalls
+        k = rng.randint(0, max(0, total - 1))
+        g.op("wscript " + ("w:%d wb" % k if k else "wb")); g.op("write")
+        g.op("dump")
+        kind = rng.choice(["server-conn-close", "server-conn-close", "server-chan-close", "client-conn-close", "violation", "heartbeat"])
+        if kind == "server-conn-close":
+            g.op("wscript wb")
+            g.feed([mg.conn_close(rng.choice([320, 541]), rng.choice(["", "CONNECTION_FORCED"]))])
+        elif kind == "server-chan-close":
+            g.op("wscript wb")
+            g.feed([mg.chan_close(g.handles[rng.choice(labels)], 406, "x")])
+        elif kind == "client-conn-close":
+            g.op("wscript wb")
+            g.op("send 0 close0 %s" % hx(amqp.connection_close(200, "goodbye")))
+            g.op("ev 0")
+        elif kind == "violation":
+            g.op("wscript wb")
+            g.feed([mg.not_allowed(rng, g.handles[rng.choice(labels)])])
+        else:
+            g.op("wscript wb")
+            g.feed([mg.heartbeat()])
+        g.op("dump")
+        g.op("wscript " + " ".join(["w:%d" % rng.choice([1, 3, 17, 100000]) for _ in range(4)]) + " w:1000000")
+        g.op("write")
+        g.op("wscript w:1000000 w:1000000")
+        g.op("write")
+        g.op("dump")
+        cases.append(g.case("b%d" % i))
+    return cases
+
+
 def gen_exhaustive(tier, seed):
     """Every pair of would-block offsets over a small buffer of frames from two channels."""
     rng = Rng(seed + 101)
@@ -180,6 +245,8 @@ def suites(tier, seed):
     return [
         Suite("wire-random", "machine", lambda: gen_random(tier, seed), monitor=monitor, nontrivial=nontrivial, canon=mg.canon_nondet, candidate_ok=mg.candidate_ok,
               rule="1-3 channels each submitting uniquely numbered frames (queue bounds 1..8), channel events in random order, transport scripts of short writes (1,2,3,5,7,8,11,13,50 bytes) and would-block episodes, I/O-thread frames (CancelOk, CloseOk) and a client close interleaved; everything flushed at the end"),
+        Suite("close-under-backlog", "machine", lambda: gen_close_backlog(tier, seed), monitor=monitor, nontrivial=lambda c, il: True, canon=mg.canon_nondet, candidate_ok=mg.candidate_ok,
+              rule="1-6 numbered frames from 1-3 channels buffered, the transport takes a random number of bytes (frame boundary or mid-frame) and stalls; then one of {server Connection.Close, server Channel.Close, client Connection.Close, a not-allowed server method, a heartbeat} is processed with the backlog pending; then the transport drains. Monitor: written ++ buffered only ever grows; whole frames; per-handle order"),
         Suite("wire-exhaustive", "machine", lambda: gen_exhaustive(tier, seed), monitor=monitor, nontrivial=nontrivial, canon=mg.canon_nondet, candidate_ok=mg.candidate_ok, exhaustive=(tier != "quick"),
               rule="three small frames from two channels (29 bytes): EVERY pair of would-block offsets (%s)" % ("every 2nd offset" if tier == "quick" else "all")),
     ]
